@@ -8,6 +8,7 @@ import (
 	"runtime"
 	"strings"
 	"sync"
+	"sync/atomic"
 	"time"
 
 	"go.dedis.ch/onet/v3/log"
@@ -29,6 +30,7 @@ type Input struct {
 	NoIdent bool         `json:"no_ident,omitempty"` // tcp: bytes written straight to the listening router
 	Payload *PayloadSpec `json:"payload,omitempty"`  // decode
 	Senders [][]ValSpec  `json:"senders,omitempty"`  // conc: one list of values per sending goroutine
+	Backlog int          `json:"backlog,omitempty"`  // local: this many numbered messages while the receiver's handler is busy
 	FailAt  *int         `json:"fail_at,omitempty"`  // stream (conn, router): the sender's Write crossing this wire offset fails part-way
 }
 
@@ -74,11 +76,19 @@ var (
 	currentLog *[]delivered
 )
 
+// pauseGate, when set, makes the processor hold on to the message it is handed
+// (a busy handler): the receiving router reads nothing more until it is closed.
+var pauseGate chan struct{}
+
 func recordProc(env *network.Envelope) error {
 	logMu.Lock()
-	defer logMu.Unlock()
 	if currentLog != nil {
 		*currentLog = append(*currentLog, delivered{env.MsgType, env.Msg})
+	}
+	gate := pauseGate
+	logMu.Unlock()
+	if gate != nil {
+		<-gate
 	}
 	return nil
 }
@@ -918,7 +928,50 @@ func runLocal(in *Input) (c lib.Case) {
 	var vals []interface{}
 	var sends []bool
 	want := 0
-	for _, is := range in.Items {
+	items := in.Items
+	if in.Backlog > 0 {
+		// numbered messages; the handler of the first one stays busy, so the two
+		// queues of the connection (2 x LocalMaxBuffer) fill up and the sender has
+		// to wait for room; then the handler lets go and everything drains
+		items = nil
+		for i := 0; i < in.Backlog; i++ {
+			items = append(items, sentinel(1+i%97)) // numbered modulo 97: neighbours within 96 places are distinct, and the codec table of the Coq case stays small
+		}
+		gate := make(chan struct{})
+		logMu.Lock()
+		pauseGate = gate
+		logMu.Unlock()
+		var sent int64
+		go func() {
+			// open the gate once the sender is through or has not moved for 150 ms
+			// (it waits for room), at the latest after 10 s; when exactly does not
+			// matter for what a FIFO connection delivers
+			last, still := int64(-1), 0
+			for t := 0; t < 2000; t++ {
+				time.Sleep(5 * time.Millisecond)
+				n := atomic.LoadInt64(&sent)
+				if n >= int64(in.Backlog) {
+					break
+				}
+				if n == last {
+					still++
+					if still >= 30 {
+						break
+					}
+				} else {
+					last, still = n, 0
+				}
+			}
+			logMu.Lock()
+			pauseGate = nil
+			logMu.Unlock()
+			close(gate)
+		}()
+		sentCounter = &sent
+	} else {
+		sentCounter = nil
+	}
+	for _, is := range items {
 		v := genValue(is.Val, &pl.ctx)
 		mb, err := canonical(v)
 		if err != nil {
@@ -930,6 +983,9 @@ func runLocal(in *Input) (c lib.Case) {
 		sends = append(sends, err == nil)
 		if err == nil {
 			want++
+		}
+		if sentCounter != nil {
+			atomic.AddInt64(sentCounter, 1)
 		}
 	}
 	// the queue is drained by B's handleConn; the last message is a sentinel
@@ -973,10 +1029,38 @@ func runLocal(in *Input) (c lib.Case) {
 	}
 	ch := &chunker{fills: pl.ctx.fills}
 	coq := fmt.Sprintf("CLocal %s %s %s %s %s %s false", pl.coq(ch), natList(idx), boolList(sends), natList(dIdx), coqBool(valeq), coqBool(tyeq))
+	if len(sends) > 40 {
+		ok := 0
+		for _, b := range sends {
+			if b {
+				ok++
+			}
+		}
+		return lib.Case{Coq: coq, Class: "local-" + in.Tag,
+			Obs: map[string]interface{}{"sent": len(idx), "sends_returned_nil": ok, "delivered_count": len(got),
+				"first_out_of_place": firstOutOfPlace(idx, dIdx), "values_equal": valeq, "types_match": tyeq},
+			Nontrivial: true, Key: fmt.Sprintf("l|backlog|%d|%v", len(idx), dIdx)}
+	}
 	return lib.Case{Coq: coq, Class: "local-" + in.Tag,
 		Obs: map[string]interface{}{"sent": len(idx), "sends_ok": sends, "delivered": describeDelivered(got),
 			"values_equal": valeq, "types_match": tyeq},
 		Nontrivial: len(idx) > 0, Key: fmt.Sprintf("l|%v|%s", idx, coq)}
+}
+
+var sentCounter *int64
+
+// firstOutOfPlace: position of the first delivery that is not the message sent
+// at that position (-1: none).
+func firstOutOfPlace(sent, got []int) int {
+	for i := range got {
+		if i >= len(sent) || sent[i] != got[i] {
+			return i
+		}
+	}
+	if len(got) < len(sent) {
+		return len(got)
+	}
+	return -1
 }
 
 // ---- several goroutines sending on one connection -----------------------------------
